@@ -199,6 +199,7 @@ func checkVerifyCosmosHeader(c *core.Ctx, sp tmSpec) {
 		return false, false
 	}
 	eng.IterationMustPass(c, "C30.tally", fn, hdr, body, "range commit entries", eng.NamedGuard{Name: "entry absent ∨ signature verified", G: ir.Or(absent, verified.G)})
+	checkOneValidatorPerSlot(c, fn, incs[0].Instr.(*ssa.BinOp), hdr)
 }
 
 func checkTmSync(c *core.Ctx, sp tmSpec) {
